@@ -34,6 +34,9 @@ pub fn one_case(rng: &mut Rng, rate: u8, ncalls: usize) -> (String, String) {
     vh::set_auto_advance_ns(0);
     vh::set_now_ns(T0);
     let rec = Recorder::new(10, 40, false);
+    // a fifth of the cases: a terminal that takes every frame but reports an error when it is flushed (always, or every second
+    // time), with one of the error kinds code likes to treat as transient — the frames still count
+    if rng.chance(1, 5) { rec.set_flush_fault(1 + rng.below(2) as u8); rec.set_fault_kind(*rng.pick(&[std::io::ErrorKind::Other, std::io::ErrorKind::WouldBlock, std::io::ErrorKind::Interrupted])); }
     let pb = ProgressBar::with_draw_target(None, ProgressDrawTarget::term_like_with_hz(Box::new(rec.clone()), rate));
     pb.set_style(ProgressStyle::with_template("{msg}").unwrap());
     let mut t = T0;
@@ -46,9 +49,9 @@ pub fn one_case(rng: &mut Rng, rate: u8, ncalls: usize) -> (String, String) {
         let g = if burst > 0 { burst -= 1; 0 } else { let g = gap(rng, i_ns); if g > 20 * i_ns && rng.chance(1, 2) { burst = rng.range(15, 40); } g };
         t += g;
         vh::set_now_ns(t);
-        let before = rec.flushes();
+        let before = rec.flush_attempts();
         pb.set_message("x");
-        let painted = rec.flushes() > before;
+        let painted = rec.flush_attempts() > before;
         times.push(t);
         bits.push(if painted { '1' } else { '0' });
         if painted { painted_times.push(t); }
